@@ -78,7 +78,7 @@ fn c12_handy_consistent_step() {
 
 /// DemandConcurrency: only STREAMS_BLOCKED changes the limit, to (reported limit + 1).
 /// Bound: reported value < 2^62-1 (for 2^62-1 the `+ 1` leaves the VarInt range — see the
-/// pending harness c12_remote_blocked_demand_any in sid_remote.rs).
+/// pending harness c12_remote_blocked_demand_any_pending in sid_remote.rs).
 #[kani::proof]
 fn c12_handy_demand_step() {
     let mut c = handy::DemandConcurrency;
